@@ -45,6 +45,8 @@ def run(chk):
     chk.call(r4_views, chk)
     chk.call(r5_pure_helpers, chk)
     chk.call(r6_antiparallel_branch, chk)
+    # rotate_dihedral's axis is `vector(a1, a2)`, which asks `isinstance(a2, AtomLike)` before it resolves the atom (clause of C05.R7)
+    chk.call(c05.r7_designators_are_atomlike, chk, {k: chk.prog.cls(v) for k, v in c05.CHAIN.items()})
 
 
 def _whole_array_update(f, param):
@@ -521,8 +523,9 @@ def r4_views(chk):
     conf = chk.prog.cls(f"{ENS}:Conformer")
     ens = chk.prog.cls(f"{ENS}:ConformerEnsemble")
     c14.r3_view(sub, conf, ens)
+    c05.view_keeps_caller_order(sub, "C11.R4")
     for o in sub.obligations:
-        if "coords" in o["construct"] or "memoised" in o["construct"] or "parent_atom_indices" in o["construct"]:
+        if "coords" in o["construct"] or "memoised" in o["construct"] or "parent_atom_indices" in o["construct"] or o["construct"].endswith(":in-caller-order"):
             o = dict(o)
             o["rule"] = "C11.R4"
             chk.obligations.append(o)
